@@ -15,11 +15,11 @@ T = "machine-checked proof in Coq (invariants by induction over operation sequen
 
 PROPS = {
  "C01": ("proof",
-         "Theorems: the engine's attack test equals the rules' attack relation on every board (C01_targeted_is_attacked); the pin shortcut agrees with the full legality test; every generated move is a "
-         "well-formed move (gen_ok) in every reachable game; generator soundness (generated => Rules.pseudo_legal, Proofs/GenSound.v) and completeness (Rules.pseudo_legal and not a king step next to the "
-         "enemy king => generated, Proofs/GenComplete.v) and duplicate-freeness (NoDup of the UCI texts) are proved; the final assembly 'checked list = Rules.legal_moves as a set' is in progress, so the "
-         "end-to-end statement is carried by the correspondence run with Rules.legal_moves as oracle on every position of every playout.",
-         "the positions with more than 256 pseudo-legal moves (list truncated by the 256-entry buffer) are outside the theorems; see DESIGN.md C15."),
+         "Theorem C01_reachable: for every game reached by legal play from a sane import whose untruncated move list fits the 256-entry buffer, the checked list (as UCI texts) is a "
+         "permutation of Rules.legal_moves, without repetition, it is a sub-list of the unchecked list, and every other unchecked move is pseudo-legal under the rules and leaves the mover's king attacked. "
+         "Ingredients, all proved: attack test = rules' attack relation on every board; pin shortcut = full test; generator soundness, completeness and duplicate-freeness against Spec/Rules.v; "
+         "push = Rules.apply; the legal-play invariant (both kings present, side not to move not attacked) by induction over import / push_history.",
+         "positions with more than 256 pseudo-legal moves (list truncated by the buffer) are excluded by the hypothesis Fits; a FEN-acceptable example is pinned (C15_refuted_buffer) and the general bound for reachable material is open (DESIGN.md 11.4)."),
  "C02": ("proof",
          "Theorem C02_push_is_apply: for every game reachable by legal play and every legal move, abs(push g m) = Rules.apply (abs g) (abs_move m) (placement, side, four rights, recorded en-passant file), "
          "also for push_history; lifted to move sequences (C02_sequence). The invariant it needs (castling right => king and rook at home) is itself proved for every reachable game.",
